@@ -6,6 +6,178 @@ use crate::rules::util::*;
 use serde_json::{json, Value};
 use std::collections::{BTreeMap, BTreeSet};
 
+/// The Rust type format_member_or_option declares for a component / alternative (`member`: a SequenceOrSetMember or
+/// ChoiceOption value), with constraints_and_type_name and needs_unnesting inlined and the leaf renderers symbolic:
+/// `Inner<name>` for a hoisted inner type, `Ref<T>` for a type reference, `Box<..>` where boxed.
+pub fn declared_type(m: &Model, member: crate::eval::Val) -> Result<String, String> {
+    use crate::eval::{Env, Evaluator, Val};
+    let fmo = m.fns.iter().find(|f| f.name == "format_member_or_option" && f.self_ty.as_deref() == Some("Rasn")).ok_or("anchor not found: Rasn::format_member_or_option")?;
+    let consts = const_resolver(m);
+    let okv = |v: Val| Val::Ctor("Ok".into(), vec![v], BTreeMap::new());
+    let sym = |v: &Val| match v { Val::Sym(s) | Val::Str(s) => s.clone(), o => o.show() };
+    let hook = |_: &Evaluator, name: &str, a: &[Val]| -> Option<Result<Val, String>> {
+        let field = |k: &str| match a.first() { Some(Val::Ctor(_, _, f)) => f.get(k).cloned(), _ => None };
+        let is_member = matches!(a.first(), Some(Val::Ctor(k, _, _)) if k == "ChoiceOption" || k == "SequenceOrSetMember");
+        match name {
+            ".ty" | ".name" | ".is_recursive" | ".tag" if a.len() == 1 && is_member => field(&name[1..]).map(Ok),
+            ".constraints" if a.len() == 1 => match a.first() {
+                Some(Val::Ctor(_, _, _)) if is_member => field("constraints").map(Ok),
+                Some(Val::Ctor(_, p, _)) => Some(Ok(match p.first() { Some(Val::Ctor(_, _, f)) => f.get("constraints").cloned().unwrap_or(Val::List(vec![])), _ => Val::List(vec![]) })),
+                _ => None,
+            },
+            ".inner_name" => Some(Ok(Val::Sym(format!("Inner<{}>", a.get(1).map(sym).unwrap_or_default())))),
+            "boxed_type" => Some(Ok(Val::Sym(format!("Box<{}>", a.first().map(sym).unwrap_or_default())))),
+            ".to_rust_qualified_type" => Some(Ok(Val::Sym(format!("Ref<{}>", a.get(2).map(sym).unwrap_or_default())))),
+            ".format_range_annotations" | ".format_alphabet_annotations" | ".join_annotations" => Some(Ok(okv(Val::Sym(String::new())))),
+            ".format_tag" | ".format_identifier_annotation" => Some(Ok(Val::Sym(String::new()))),
+            ".int_type_token" => Some(Ok(Val::Sym("INT".into()))),
+            "per_visible_range_constraints" => Some(Ok(okv(Val::Opaque("per".into())))),
+            ".min" | ".max" | ".is_extensible" if matches!(a.first(), Some(Val::Opaque(s)) if s == "per") => Some(Ok(Val::none())),
+            ".to_token_stream" | ".to_owned" | ".clone" | ".as_ref" if a.len() == 1 => Some(Ok(a[0].clone())),
+            ".to_string" if a.len() == 1 => Some(Ok(match &a[0] { Val::Sym(s) => Val::Str(s.clone()), o => o.clone() })),
+            _ => None,
+        }
+    };
+    let mut inl = inline_all(m, &["Rasn"]);
+    inl.retain(|k, _| [".constraints_and_type_name", "needs_unnesting"].contains(&k.as_str()));
+    let ev = Evaluator { consts: &consts, call_hook: &hook, inline: Some(&inl) };
+    let fparams: Vec<String> = fmo.sig.inputs.iter().filter_map(|a| match a { syn::FnArg::Typed(t) => Some(tok(&t.pat)), _ => None }).collect();
+    if fparams.len() < 5 {
+        return Err("format_member_or_option: expected five parameters".into());
+    }
+    let mut env = Env::new();
+    env.insert("self".into(), Val::ctor("Rasn"));
+    env.insert(fparams[0].clone(), member);
+    env.insert(fparams[1].clone(), Val::Str("Name".into()));
+    env.insert(fparams[2].clone(), Val::Sym("alt".into()));
+    env.insert(fparams[3].clone(), Val::Sym(String::new()));
+    env.insert(fparams[4].clone(), Val::none());
+    match ev.eval_fn_body(&fmo.block, &mut env)? {
+        Val::Ctor(ok, p, _) if ok == "Ok" => match p.first() { Some(Val::Ctor(_, _, fl)) => fl.get("formatted_type_name").map(sym).ok_or_else(|| "no formatted_type_name".to_string()), _ => Err("unexpected result".into()) },
+        o => Err(o.show().chars().take(100).collect()),
+    }
+}
+
+/// C19.payload: `impl From<T> for Choice { Self::alt(value) }` type-checks only when T is the type the variant `alt` is
+/// declared with. The variant's type is what format_member_or_option renders for the alternative (a hoisted inner type for
+/// anonymous SEQUENCE / CHOICE / ENUMERATED alternatives and for lists of constrained or anonymous elements, boxed when
+/// recursive); the type of the From impl is whatever the generate_from_impls block of generate_choice hands to the template.
+/// Both are evaluated (the helpers they call inlined) for alternatives of every shape and compared.
+pub fn from_payload(m: &Model, ctx: &mut Ctx, rule: &str) {
+    use crate::eval::{new_map, Env, Evaluator, Val};
+    let Some(f) = anchor_fn(m, ctx, rule, Some("Rasn"), "generate_choice", None) else { return };
+    let Some(fmo) = anchor_fn(m, ctx, rule, Some("Rasn"), "format_member_or_option", None) else { return };
+    struct F { out: Vec<syn::ExprIf> }
+    impl model::DeepCb for F {
+        fn expr(&mut self, e: &syn::Expr) {
+            if let syn::Expr::If(i) = e {
+                if tok(&i.cond).contains("generate_from_impls") {
+                    self.out.push(i.clone());
+                }
+            }
+        }
+    }
+    let mut c = F { out: vec![] };
+    model::deep_walk_block(&f.block, &mut c);
+    let Some(iff) = c.out.first().cloned() else {
+        ctx.fail_closed(rule, "generate_choice: no block guarded by config.generate_from_impls");
+        return;
+    };
+    let consts = const_resolver(m);
+    let okv = |v: Val| Val::Ctor("Ok".into(), vec![v], BTreeMap::new());
+    let sym = |v: &Val| match v { Val::Sym(s) | Val::Str(s) => s.clone(), o => o.show() };
+    let log = std::cell::RefCell::new(Vec::<String>::new());
+    let hook = |_: &Evaluator, name: &str, a: &[Val]| -> Option<Result<Val, String>> {
+        let field = |k: &str| match a.first() { Some(Val::Ctor(_, _, f)) => f.get(k).cloned(), _ => None };
+        match name {
+            "BTreeMap::new" | "HashMap::new" | "BTreeMap::default" | "HashMap::default" => Some(Ok(new_map())),
+            ".ty" | ".name" | ".is_recursive" | ".tag" if a.len() == 1 && matches!(a.first(), Some(Val::Ctor(k, _, _)) if k == "ChoiceOption") => field(&name[1..]).map(Ok),
+            ".constraints" if a.len() == 1 => match a.first() {
+                Some(Val::Ctor(k, _, _)) if k == "ChoiceOption" => field("constraints").map(Ok),
+                Some(Val::Ctor(_, p, _)) => Some(Ok(match p.first() { Some(Val::Ctor(_, _, f)) => f.get("constraints").cloned().unwrap_or(Val::List(vec![])), _ => Val::List(vec![]) })),
+                _ => None,
+            },
+            ".inner_name" => Some(Ok(Val::Sym(format!("Inner<{}>", a.get(1).map(sym).unwrap_or_default())))),
+            "boxed_type" => Some(Ok(Val::Sym(format!("Box<{}>", a.first().map(sym).unwrap_or_default())))),
+            ".to_rust_qualified_type" => Some(Ok(Val::Sym(format!("Ref<{}>", a.get(2).map(sym).unwrap_or_default())))),
+            ".to_rust_enum_identifier" | ".to_rust_snake_case" => a.get(1).map(|v| Ok(Val::Sym(sym(v)))),
+            ".format_range_annotations" | ".format_alphabet_annotations" | ".join_annotations" => Some(Ok(okv(Val::Sym(String::new())))),
+            ".format_tag" | ".format_identifier_annotation" => Some(Ok(Val::Sym(String::new()))),
+            ".int_type_token" => Some(Ok(Val::Sym("INT".into()))),
+            "per_visible_range_constraints" => Some(Ok(okv(Val::Opaque("per".into())))),
+            ".min" | ".max" | ".is_extensible" if matches!(a.first(), Some(Val::Opaque(s)) if s == "per") => Some(Ok(Val::none())),
+            ".to_token_stream" | ".to_owned" | ".clone" | ".as_ref" if a.len() == 1 => Some(Ok(a[0].clone())),
+            ".to_string" if a.len() == 1 => Some(Ok(match &a[0] { Val::Sym(s) => Val::Str(s.clone()), o => o.clone() })),
+            "choice_from_impl_template" => {
+                log.borrow_mut().push(format!("{}={}", a.get(1).map(sym).unwrap_or_default(), a.get(2).map(sym).unwrap_or_default()));
+                Some(Ok(Val::Sym("from_impl".into())))
+            }
+            "std::iter::once" | "iter::once" | "once" => Some(Ok(Val::List(a.to_vec()))),
+            _ => None,
+        }
+    };
+    let mut inl = inline_all(m, &["Rasn"]);
+    inl.retain(|k, _| [".constraints_and_type_name", ".format_member_or_option", ".choice_option_type", "needs_unnesting", ".format_sequence_or_set_of_item_type"].contains(&k.as_str()));
+    let mut inl_ty = inline_all(m, &["ASN1Type"]);
+    inl_ty.retain(|k, _| k == ".constraints");
+    let ev = Evaluator { consts: &consts, call_hook: &hook, inline: Some(&inl) };
+    let named = |n: &str, fields: Vec<(&str, Val)>| Val::Ctor(n.to_string(), vec![], fields.into_iter().map(|(k, v)| (k.to_string(), v)).collect::<BTreeMap<_, _>>());
+    let boolean = || Val::Ctor("Boolean".into(), vec![named("Boolean", vec![("constraints", Val::List(vec![]))])], BTreeMap::new());
+    let integer = |constrained: bool| Val::Ctor("Integer".into(), vec![named("Integer", vec![("constraints", Val::List(if constrained { vec![Val::Opaque("c".into())] } else { vec![] })), ("distinguished_values", Val::none())])], BTreeMap::new());
+    let reference = |to: &str| Val::Ctor("ElsewhereDeclaredType".into(), vec![named("DeclarationElsewhere", vec![("identifier", Val::Str(to.into())), ("module", Val::none()), ("parent", Val::none()), ("constraints", Val::List(vec![]))])], BTreeMap::new());
+    let seq = || Val::Ctor("Sequence".into(), vec![named("SequenceOrSet", vec![("members", Val::List(vec![])), ("extensible", Val::none()), ("constraints", Val::List(vec![]))])], BTreeMap::new());
+    let list_of = |ty: Val| Val::Ctor("SequenceOf".into(), vec![named("SequenceOrSetOf", vec![("element_type", ty), ("element_tag", Val::none()), ("constraints", Val::List(vec![])), ("is_recursive", Val::Bool(false))])], BTreeMap::new());
+    let shapes: Vec<(&str, Val, bool)> = vec![
+        ("BOOLEAN", boolean(), false),
+        ("a type reference", reference("Other"), false),
+        ("a recursive type reference", reference("Tree"), true),
+        ("an inline SEQUENCE", seq(), false),
+        ("a recursive inline SEQUENCE", seq(), true),
+        ("SEQUENCE OF BOOLEAN", list_of(boolean()), false),
+        ("SEQUENCE OF a constrained INTEGER", list_of(integer(true)), false),
+        ("SEQUENCE OF an inline SEQUENCE", list_of(seq()), false),
+        ("SEQUENCE OF a type reference", list_of(reference("Other")), false),
+    ];
+    let fparams: Vec<String> = fmo.sig.inputs.iter().filter_map(|a| match a { syn::FnArg::Typed(t) => Some(tok(&t.pat)), _ => None }).collect();
+    for (label, ty, recursive) in shapes {
+        ctx.oblige(rule, &format!("payload:{}", label), true);
+        let option = named("ChoiceOption", vec![("name", Val::Str("alt".into())), ("ty", ty), ("is_recursive", Val::Bool(recursive)), ("tag", Val::none()), ("constraints", Val::List(vec![]))]);
+        // (a) the declared type of the variant
+        let mut env = Env::new();
+        env.insert("self".into(), Val::ctor("Rasn"));
+        env.insert(fparams[0].clone(), option.clone());
+        env.insert(fparams[1].clone(), Val::Str("Name".into()));
+        env.insert(fparams[2].clone(), Val::Sym("alt".into()));
+        env.insert(fparams[3].clone(), Val::Sym(String::new()));
+        env.insert(fparams[4].clone(), Val::none());
+        let declared = match ev.eval_fn_body(&fmo.block, &mut env) {
+            Ok(Val::Ctor(ok, p, _)) if ok == "Ok" => match p.first() { Some(Val::Ctor(_, _, fl)) => fl.get("formatted_type_name").map(sym), _ => None },
+            Ok(o) => { ctx.fail_closed(rule, &format!("[{}] format_member_or_option: {}", label, o.show().chars().take(100).collect::<String>())); continue; }
+            Err(e) => { ctx.fail_closed(rule, &format!("[{}] format_member_or_option: {}", label, e)); continue; }
+        };
+        let Some(declared) = declared else { ctx.fail_closed(rule, &format!("[{}]: no formatted_type_name", label)); continue; };
+        // (b) the type of the From impl
+        log.borrow_mut().clear();
+        let mut env = Env::new();
+        env.insert("choice".into(), named("Choice", vec![("options", Val::List(vec![option])), ("extensible", Val::none())]));
+        env.insert("name".into(), Val::Sym("Name".into()));
+        env.insert("choice_str".into(), Val::Sym("choice_str".into()));
+        env.insert("self".into(), Val::ctor("Rasn"));
+        match ev.eval_block(&iff.then_branch, &mut env) {
+            Ok(_) => {
+                let got = log.borrow().first().cloned().unwrap_or_default();
+                let want = format!("alt={}", declared);
+                if got != want {
+                    ctx.violate(rule, "from-impl-payload-differs", &f.file, span_line(&iff),
+                        &format!("generate_from_impls, alternative `alt` of type {}: the variant is declared `alt({})`, the impl is `impl From<{}> for Name {{ Self::alt(value) }}` — mismatched types (E0308) in the bindings, with an option that should only add impls", label, declared, got.trim_start_matches("alt=")));
+                }
+            }
+            Err(e) => ctx.fail_closed(rule, &format!("[{}] from-impl block: {}", label, e)),
+        }
+    }
+    let _ = inl_ty;
+}
+
 pub fn run(m: &Model, ctx: &mut Ctx) {
     ctx.explanation = "C19.reads (who-may-read): every read of a Config field in the rasn backend is enumerated from the syntax tree and compared with the audited table audit/config_reads.json (option -> fns that may consult it); a new reader means an option leaks into an aspect it does not document. \
 C19.delta: for each boolean option the two branches it selects differ only in the documented tokens: no_std templates interpolate the same variables in both branches, use lazy_static! in one and LazyLock in the other, and the module wrapper imports the matching item; \
@@ -81,6 +253,7 @@ C19.derives: the derives rasn needs are always present (REQUIRED_DERIVES), user 
 
     no_std(m, ctx, "C19.delta");
     from_impls(m, ctx);
+    from_payload(m, ctx, "C19.payload");
     imports(m, ctx);
     derives(m, ctx);
 }
